@@ -18,67 +18,70 @@ Print Assumptions C38_mutex_exclusive.
 
 Theorem C38_no_secret_while_locked : forall sched i newer older,
   trace (reach sched) = newer ++ ESecret i :: older ->
-  exists t, In (EObs i true true false t) older.
+  exists t, In (EObs i true true t) older.
 Proof. exact no_secret_while_locked. Qed.
 Print Assumptions C38_no_secret_while_locked.
 
-Theorem C38_window_invisible_under_mutex : forall sched i u w t,
-  In (EObs i u true w t) (trace (reach sched)) -> w = false.
-Proof. exact window_invisible_under_mutex. Qed.
-Print Assumptions C38_window_invisible_under_mutex.
+(** no step of a ProcWalletSetPasswd request changes the lock flag, in any state
+    reachable by any schedule (chain33 66be1e2 removed the temporary unlock) *)
+Theorem C38_setpasswd_leaves_flag : forall sched i old nw c,
+  nth_error (thr (reach sched)) i = Some (QSetPasswd old nw, c) ->
+  locked (sh (exec1 (reach sched) (SStep i))) = locked (sh (reach sched)).
+Proof. exact setpasswd_leaves_flag. Qed.
+Print Assumptions C38_setpasswd_leaves_flag.
 
-Theorem C38_observed_unlocked_implies_unlock_before_refuted : ~ observed_unlocked_full.
-Proof. exact observed_unlocked_refuted. Qed.
-Print Assumptions C38_observed_unlocked_implies_unlock_before_refuted.
+(** full strength, every schedule: every observer, lock-free (IsWalletLocked /
+    GetWalletStatus) or under the mutex, sees "unlocked" only after a verified
+    unlock with no lock / timer expiry / restart since *)
+Theorem C38_observed_unlocked_implies_unlock_before : forall sched,
+  obs_ok true (trace (reach sched)) = true.
+Proof. exact observed_unlocked. Qed.
+Print Assumptions C38_observed_unlocked_implies_unlock_before.
 
-Theorem C38_window_witness :
+Theorem C38_secret_implies_unlock_before : forall sched,
+  obs_ok false (trace (reach sched)) = true.
+Proof. exact secret_unlock_before. Qed.
+Print Assumptions C38_secret_implies_unlock_before.
+
+Theorem C38_flag_clear_implies_unlock_before : forall sched,
+  locked (sh (reach sched)) = false -> auth_of (trace (reach sched)) = true.
+Proof. exact flag_clear_implies_unlock_before. Qed.
+Print Assumptions C38_flag_clear_implies_unlock_before.
+
+(** the schedule that refuted the first statement before the repair *)
+Theorem C38_window_closed :
   let g := reach sched_window in
   result_of g 0 = Some ROk
   /\ result_of g 1 = Some (RErr eVerifyOld)
-  /\ result_of g 2 = Some (RBool false)
-  /\ locked (sh g) = true
-  /\ existsb (fun e => match e with EUnlock _ _ _ => true | _ => false end) (trace g) = false
-  /\ obs_ok true (trace g) = false.
-Proof. exact window_witness. Qed.
-Print Assumptions C38_window_witness.
+  /\ result_of g 2 = Some (RBool true)
+  /\ locked (sh g) = true.
+Proof. exact window_closed. Qed.
+Print Assumptions C38_window_closed.
 
-Theorem C38_observed_unlocked_implies_unlock_before_partial : forall sched,
-  no_split_race sched = true -> no_obs_in_window sched = true ->
-  obs_ok true (trace (reach sched)) = true.
-Proof. exact observed_unlocked_partial. Qed.
-Print Assumptions C38_observed_unlocked_implies_unlock_before_partial.
-
-Theorem C38_secret_implies_unlock_before_refuted : ~ secret_unlock_before_full.
-Proof. exact secret_unlock_before_refuted. Qed.
-Print Assumptions C38_secret_implies_unlock_before_refuted.
-
-Theorem C38_lost_lock_witness :
-  let g := reach sched_lost_lock in
+(** the schedule that refuted the second statement before the repair *)
+Theorem C38_lock_survives_setpasswd :
+  let g := reach sched_lock_race in
   result_of g 1 = Some ROk
   /\ result_of g 2 = Some (RErr eVerifyOld)
   /\ result_of g 3 = Some ROk
-  /\ result_of g 4 = Some RSecret
-  /\ locked (sh g) = false
-  /\ split_race g = true
-  /\ obs_ok false (trace g) = false.
-Proof. exact lost_lock_witness. Qed.
-Print Assumptions C38_lost_lock_witness.
+  /\ result_of g 4 = Some (RErr eLocked)
+  /\ locked (sh g) = true.
+Proof. exact lock_survives_setpasswd. Qed.
+Print Assumptions C38_lock_survives_setpasswd.
 
-Theorem C38_secret_implies_unlock_before_partial : forall sched,
-  no_split_race sched = true -> obs_ok false (trace (reach sched)) = true.
-Proof. exact secret_unlock_before_partial. Qed.
-Print Assumptions C38_secret_implies_unlock_before_partial.
-
-Theorem C38_guards_satisfiable :
-  let g := reach sched_guarded in
-  no_split_race sched_guarded = true /\ no_obs_in_window sched_guarded = true
-  /\ result_of g 2 = Some (RBool false)
-  /\ result_of g 3 = Some (RErr eLocked)
+Theorem C38_concurrent_example :
+  let g := reach sched_concurrent in
+  result_of g 2 = Some (RBool false)
+  /\ result_of g 3 = Some ROk
   /\ result_of g 4 = Some (RErr eLocked)
   /\ result_of g 6 = Some (RBool true)
-  /\ result_of g 7 = Some (RStatus true true).
-Proof. exact guarded_example. Qed.
-Print Assumptions C38_guards_satisfiable.
+  /\ result_of g 7 = Some (RStatus true true)
+  /\ result_of g 8 = Some (RErr eInputPw)
+  /\ result_of g 9 = Some ROk
+  /\ result_of g 10 = Some RSecret
+  /\ existsb (fun e => match e with EObs _ true _ _ => true | _ => false end) (trace g) = true.
+Proof. exact concurrent_example. Qed.
+Print Assumptions C38_concurrent_example.
 
 (** quiescent histories ([seq_run]: one request at a time, time passing in
     between, the timer function running as soon as it is due, restarts): the
